@@ -20,7 +20,7 @@
      Dead{c}      channel c was replaced by an AddInput that returned
      Taken{c}     the harness observed that the discipline took an element from channel c (len decreased / writer resumed)
      OutGrew      the user's output channel grew after Stop() had returned
-   One initial state per trace (TLC checks the traces in parallel; a rejected trace is reported once). *)
+   One initial state per trace (TLC checks the traces in parallel; a rejected trace is reported once, at its end). *)
 EXTENDS Integers, Sequences, FiniteSets, Json, TLC
 Events == ndJsonDeserialize("events.ndjson")
 Starts == {j \in 1..Len(Events) : Events[j].e = "Reset"}
@@ -68,7 +68,6 @@ AllDelivered == \A c \in live : rc[c] = wr[c] /\ ~gap[c]
 AllClosed == live \subseteq cl
 
 Step ==
-  /\ viol = {}                     \* a rejected trace is reported once, at its first offending record
   /\ l < Len(Events) /\ Events[l + 1].e # "Reset"
   /\ l' = l + 1 /\ UNCHANGED t0
   /\ LET e == Events[l + 1] IN
@@ -146,14 +145,16 @@ Step ==
 Next == Step
 Spec == Init /\ [][Next]_vars
 
-M_C01 == "C01" \notin viol
-M_C02 == "C02" \notin viol
-M_C05 == "C05" \notin viol
-M_C06 == "C06" \notin viol
-M_C07 == "C07" \notin viol
-M_C15 == "C15" \notin viol
-M_C16 == "C16" \notin viol
-M_C17 == "C17" \notin viol
-M_C19 == "C19" \notin viol
-M_Harness == "harness" \notin viol
+\* a trace is judged when it has been consumed completely: one report per rejected trace, carrying every property it violates
+AtEnd == l = Len(Events) \/ Events[l + 1].e = "Reset"
+M_C01 == AtEnd => "C01" \notin viol
+M_C02 == AtEnd => "C02" \notin viol
+M_C05 == AtEnd => "C05" \notin viol
+M_C06 == AtEnd => "C06" \notin viol
+M_C07 == AtEnd => "C07" \notin viol
+M_C15 == AtEnd => "C15" \notin viol
+M_C16 == AtEnd => "C16" \notin viol
+M_C17 == AtEnd => "C17" \notin viol
+M_C19 == AtEnd => "C19" \notin viol
+M_Harness == AtEnd => "harness" \notin viol
 =============================================================================
